@@ -166,6 +166,21 @@ class Oracle:
         if op not in ('set', 'delete') or node is None:
             return
         self.count('aux_mutations')
+        if path.startswith('/identity-groups/') and len(actor) > 3:
+            # the clean-up of a container's identity registration concerns that container's identity node only (an
+            # identity-less container is registered under the group's placeholder node)
+            mine = [c for c in self.cont.values() if c['cid'] == actor[3]]
+            if mine and mine[0].get('identity_group'):
+                import sys as _sys
+                ident = mine[0]['identity'] if mine[0]['identity'] is not None else _sys.maxsize
+                want = '/identity-groups/%s/%s' % (mine[0]['identity_group'], ident)
+                self.count('aux_identity_cleanups_checked')
+                if path != want:
+                    self.report('aux-touches-other-identity-node:%s' % actor[2],
+                                'the clean-up of container %s (identity %r of %s) on %s applies %s to %s (owner session %#x)' % (
+                                    actor[3], mine[0]['identity'], mine[0]['identity_group'], actor[1], op, path, owner or 0),
+                                dict(path=path, op=op, acting_for=actor[1], data=node.data.decode('latin1')))
+                    return
         host = node_host(path, node.data)
         if host != actor[1]:
             self.report(
